@@ -17,6 +17,8 @@ static double PREC_K_D = 64, PREC_K_L = 64;   // C09 constants (calibrated, see 
 struct MaxStat { double max = 0; long n = 0; std::string where; };
 static std::map<std::string, MaxStat> g_ratio;     // "<sol>|<ev>|<prec>" -> max |lib-ref|/(u e)
 static std::map<std::string, MaxStat> g_dl;        // double vs long double
+static long g_fd = 0; static bool fd_check = true;
+static long g_cbchecks = 0, g_invchecks = 0;
 static long g_cmp = 0, g_skipped_branch = 0, g_nonfinite = 0, g_known = 0, g_dlcmp = 0, g_badidx = 0;
 static std::set<std::string> g_emitted;            // violation keys already emitted in this shard (first witness is kept, the rest counted)
 static std::map<std::string, long> g_viol_count;
@@ -34,7 +36,7 @@ static std::string point_json(const long double* x, int n) { std::vector<long do
 static std::string params_json(const std::map<std::string, long double>& p) { JObj o; for (auto& kv : p) o.num(kv.first, kv.second); return o.done(); }
 
 // callbacks for the function-pointer evaluators live in orc_chem; the driver only needs to pass one through
-namespace orc { FP<double> chem_cb_d(int k); FP<long double> chem_cb_l(int k); int chem_ncb(); void chem_select(Ctx& c, int k); }
+namespace orc { FP<double> chem_cb_d(int k); FP<long double> chem_cb_l(int k); int chem_ncb(); void chem_select(Ctx& c, int k); void chem_rec_reset(); int chem_calls(); long double chem_lastT(); }
 template <class S> static FP<S> cb(int k);
 template <> FP<double> cb<double>(int k) { return orc::chem_cb_d(k); }
 template <> FP<long double> cb<long double>(int k) { return orc::chem_cb_l(k); }
@@ -84,6 +86,7 @@ static void run_solution(const orc::Sol& sol, const SolSpec& spec, uint64_t seed
       orc::chem_select(c, cbk);
       sol.eval(c);
       if (c.near_branch) { g_skipped_branch++; continue; }
+      std::map<std::string, long double> libvals;
       for (int ei : evs) {
         const Ev& e = api()[ei];
         int dirs = (e.kind == KI) ? e.n : 1;
@@ -94,10 +97,20 @@ static void run_solution(const orc::Sol& sol, const SolSpec& spec, uint64_t seed
           if (it == c.out.end() || !it->second.has) harness_fail("oracle for " + sol.name + " gives no reference for " + rid);
           const orc::Ref& ref = it->second;
           set_ctx("eval:" + sol.name + ":" + e.id, "masa_eval_" + e.name + "<" + P + "> on " + sol.name + " at " + point_json(xs, sol.nargs));
+          if (e.kind == KF) orc::chem_rec_reset();
           CAP.begin();
           S lib = call_ev<S>(e, a, dir, cb<S>(cbk));
           std::string out = CAP.end();
           g_cmp++;
+          libvals[rid] = (long double)lib;
+          if (e.kind == KF && spec.prov.count("exact_t/S1")) {
+            // C06: the caller-supplied K_eq is evaluated exactly once, at the exact temperature the API returns
+            S Tex = masa_eval_exact_t<S>(a[0]);
+            g_cbchecks++;
+            if (orc::chem_calls() != 1 || !biteq((S)orc::chem_lastT(), Tex))
+              viol_once(sol.prop, "callback-not-at-exact-temperature:" + sol.name + ":" + e.id, "K_eq callback invoked " + std::to_string(orc::chem_calls()) + " times / not at masa_eval_exact_t(x)",
+                        JObj().str("solution", sol.name).str("evaluator", rid).num("calls", orc::chem_calls()).num("callback_T", orc::chem_lastT()).num("exact_t", ld(Tex)).num("callback", cbk).done());
+          }
           std::string cls = e.id.substr(0, e.id.find('_'));
           std::string semprop = (cls == "grad") ? "C07" : sol.prop;
           double scale = std::max(ref.ref.e, orc::absd(ref.ref.v));
@@ -116,23 +129,21 @@ static void run_solution(const orc::Sol& sol, const SolSpec& spec, uint64_t seed
             viol_once(semprop, "error-message:" + sol.name + ":" + e.id, "provided evaluator printed an error message", detail(-1));
           double err = orc::absd((orc::Q)lib - ref.ref.v);
           double ratio = scale > 0 ? err / (u * scale) : (err == 0 ? 0 : 1e300);
-          bool sem_ok = ratio <= SEM_K;
+          // which model does the library agree with best: the governing operator, or a recorded deviation model?
           std::string matched_alt;
-          double alt_ratio = ratio;
           if (ratio > precK) {
+            double best = ratio;
             for (auto& al_ : ref.alts) {
-              double sc2 = std::max(al_.ref.e, orc::absd(al_.ref.v));
-              double r2 = orc::absd((orc::Q)lib - al_.ref.v) / (u * std::max(sc2, scale));
-              if (r2 <= SEM_K && !sem_ok) { matched_alt = al_.key; alt_ratio = r2; break; }
+              double sc2 = std::max(std::max(al_.ref.e, orc::absd(al_.ref.v)), scale);
+              double r2 = orc::absd((orc::Q)lib - al_.ref.v) / (u * sc2);
+              if (r2 < best && r2 <= SEM_K) { best = r2; matched_alt = al_.key; }
             }
-          }
-          if (!sem_ok) {
             if (!matched_alt.empty()) {
               g_known++;
               viol_once(semprop, matched_alt, "library matches the recorded deviation model, not the governing operator", detail(ratio));
               viol_once("C09", matched_alt, "library matches the recorded deviation model, not the governing operator", detail(ratio));
-              ratio = alt_ratio;   // precision is then judged against the deviation model
-            } else {
+              ratio = best;   // precision is then judged against the deviation model
+            } else if (ratio > SEM_K) {
               viol_once(semprop, "mismatch:" + sol.name + ":" + e.id, "value differs from the reference far beyond roundoff", detail(ratio));
               viol_once("C09", "mismatch:" + sol.name + ":" + e.id, "value differs from the exact value far beyond roundoff", detail(ratio));
               continue;
@@ -153,6 +164,31 @@ static void run_solution(const orc::Sol& sol, const SolSpec& spec, uint64_t seed
             m2.n++; if (r3 > m2.max) m2.max = r3;
             if (r3 > 2 * PREC_K_D && matched_alt.empty())
               viol_once("C09", "double-vs-longdouble:" + sol.name + ":" + e.id, "double and long double interfaces disagree beyond double precision", detail(r3));
+          }
+          if (e.kind != KF && cls == "grad" && fd_check) {
+            int exi = ev_index("exact_" + e.name.substr(5) + "/S" + std::to_string(e.n));
+            if (exi >= 0 && spec.prov.count(api()[exi].id)) {
+              const Ev& ex = api()[exi];
+              const long double h = 0.002L;
+              static const long double cf[4] = {4.0L / 5, -1.0L / 5, 4.0L / 105, -1.0L / 280};
+              long double acc = 0;
+              int var = (e.kind == KI) ? dir - 1 : 0;
+              for (int k = 1; k <= 4; k++) {
+                S ap[4], am[4];
+                for (int i = 0; i < 4; i++) ap[i] = am[i] = a[i];
+                ap[var] = (S)((long double)a[var] + k * h); am[var] = (S)((long double)a[var] - k * h);
+                long double hh = (long double)ap[var] - (long double)am[var];   // the step actually taken
+                CAP.begin();
+                long double fp_ = (long double)call_ev<S>(ex, ap, 0, nullptr), fm_ = (long double)call_ev<S>(ex, am, 0, nullptr);
+                CAP.end();
+                acc += cf[k - 1] * (fp_ - fm_) / (hh / (2 * k)) ;
+              }
+              g_fd++;
+              double fdtol = (sizeof(S) == 8 ? 2e-7 : 2e-9) * scale;
+              if ((double)fabsl(acc - (long double)lib) > fdtol)
+                viol_once("C07", "grad-vs-fd-of-exact:" + sol.name + ":" + e.id, "gradient differs from the finite-difference derivative of the API's own exact field",
+                          JObj().str("solution", sol.name).str("evaluator", rid).str("precision", P).num("gradient", ld(lib)).num("fd_of_exact", acc).num("tol", fdtol).raw("point", point_json(xs, sol.nargs)).raw("params", params_json(setv)).done());
+            }
           }
           if (g_cmp <= 2) LOG.sample(detail(ratio));
         }
@@ -176,7 +212,23 @@ static void run_solution(const orc::Sol& sol, const SolSpec& spec, uint64_t seed
           }
         }
       }
-      LOG.count("points", 0);
+      for (auto& kv : c.out) {
+        if (kv.first.rfind("@sum(", 0) != 0 || !kv.second.has) continue;
+        std::string inner = kv.first.substr(5, kv.first.size() - 6);
+        size_t cm = inner.find(',');
+        auto i1 = libvals.find(inner.substr(0, cm)), i2 = libvals.find(inner.substr(cm + 1));
+        if (i1 == libvals.end() || i2 == libvals.end()) continue;
+        long double sum = i1->second + i2->second;
+        // scale: the two summands' own references (the reaction terms must cancel to roundoff of THEIR size)
+        double scale = std::max(kv.second.ref.e, orc::absd(kv.second.ref.v));
+        scale = std::max(scale, std::max(c.out[inner.substr(0, cm)].ref.e, c.out[inner.substr(cm + 1)].ref.e));
+        double ratio = orc::absd((orc::Q)sum - kv.second.ref.v) / (u * scale);
+        g_invchecks++;
+        if (ratio > SEM_K)
+          viol_once(sol.prop, "invariant:" + sol.name + ":" + kv.first, "sum of the species sources is not d(rho u)/dx",
+                    JObj().str("solution", sol.name).num("sum", sum).num("reference", (long double)kv.second.ref.v).num("ratio", ratio).num("callback", cbk).raw("point", point_json(xs, sol.nargs)).done());
+      }
+      LOG.count("points", 1);
     }
   }
 }
@@ -207,6 +259,9 @@ int main(int argc, char** argv) {
   LOG.count("comparisons", g_cmp);
   LOG.count("double_vs_longdouble_comparisons", g_dlcmp);
   LOG.count("bad_index_calls", g_badidx);
+  LOG.count("gradient_vs_fd_of_exact_checks", g_fd);
+  LOG.count("callback_argument_checks", g_cbchecks);
+  LOG.count("mass_sum_invariant_checks", g_invchecks);
   LOG.count("skipped_near_branch", g_skipped_branch);
   LOG.count("nonfinite", g_nonfinite);
   LOG.count("matched_known_deviation", g_known);
